@@ -259,21 +259,52 @@ func VerifH_C12_kernels() {
 		prev = j.Index()
 	}
 	vpAssert(q.Len() == 0, "work-queue-empty-after-popping-everything")
+}
 
-	r := NewPeerRanking().(*peerRanking)
-	r.AddPeer("a")
-	r.AddPeer("b")
-	for k := 0; k < 3; k++ {
+// VerifH_C12_ranking: re-issued requests prefer peers with a better record.
+func VerifH_C12_ranking() {
+	// the ranking against each peer's record: events are the ones the
+	// dispatcher produces (a connection or re-connection under an address, a
+	// successful query, a failed query, a disconnect reported by a worker of
+	// that address); the record is kept independently: 4 when first seen, +1
+	// per failure up to 8, -1 per success down to 0, back to 4 on a reported
+	// disconnect - and a peer that is known stays known
+	rk := NewPeerRanking()
+	rk.AddPeer("a")
+	rk.AddPeer("b")
+	rec := map[string]int{"a": 4, "b": 4}
+	for k := 0; k < vpParam("rankops", 4); k++ {
 		who := []string{"a", "b"}[vpRange("who", 0, 1)]
-		if vpRange("what", 0, 1) == 0 {
-			r.Reward(who)
-		} else {
-			r.Punish(who)
+		switch vpRange("what", 0, 3) {
+		case 0:
+			rk.Reward(who)
+			if rec[who] > 0 {
+				rec[who]--
+			}
+		case 1:
+			rk.Punish(who)
+			if rec[who] < 8 {
+				rec[who]++
+			}
+		case 2:
+			rk.AddPeer(who) // the peer connects again under the same address
+		case 3:
+			rk.ResetRanking(who)
+			rec[who] = 4
+			vpReach("disconnect-reported")
 		}
 	}
-	order := []string{"b", "a"}
-	r.Order(order)
-	vpAssert(r.rank[order[0]] <= r.rank[order[1]], "ranking-orders-better-score-first")
+	for _, order := range [][]string{{"b", "a"}, {"a", "b"}} {
+		rk.Order(order)
+		if rec["a"] != rec["b"] {
+			better := "a"
+			if rec["b"] < rec["a"] {
+				better = "b"
+			}
+			vpReach("records-differ")
+			vpAssert(order[0] == better, "ranking-orders-the-peer-with-the-better-record-first")
+		}
+	}
 }
 
 // VerifH_C12_timedWorker: the real worker.Run under virtual time (timers
